@@ -155,12 +155,10 @@ func (s *session) oneResult(call string, ch <-chan gnet.RegisteredResult, st *cs
 		case <-time.After(2 * time.Second):
 			s.failf("ctl-register-result", "%s: the result channel was not closed after its single result", call)
 		}
-	case <-waitRunning(s, bound):
-		if atomic.LoadInt32(&s.phase) == 1 {
-			s.failf("ctl-register-result", "%s: no result within %v on a running engine", call, bound)
-		}
-		// a request accepted while the engine was shutting down may be lost with the loop's
-		// queue (same class as the known finding of C07): not judged here
+	case <-time.After(bound):
+		// also for a call that was accepted while the engine was shutting down: its loop may
+		// have gone before it got to the request, the call then yields an error, not nothing
+		s.failf("ctl-register-result", "%s was accepted, but no result was delivered within %v (engine phase now %d)", call, bound, atomic.LoadInt32(&s.phase))
 	}
 }
 
@@ -229,23 +227,6 @@ loop:
 		s.failf("ctl-shutdown-action", "%s: the Shutdown action of the registered connection did not make Run return within %v", call, bound)
 		_ = s.eng.Stop(context.Background())
 	}
-}
-
-// waitRunning fires after d, or 300 ms after the engine left the running state.
-func waitRunning(s *session, d time.Duration) <-chan struct{} {
-	out := make(chan struct{})
-	go func() {
-		dl := time.Now().Add(d)
-		for time.Now().Before(dl) {
-			if atomic.LoadInt32(&s.phase) != 1 {
-				time.Sleep(300 * time.Millisecond)
-				break
-			}
-			time.Sleep(2 * time.Millisecond)
-		}
-		close(out)
-	}()
-	return out
 }
 
 func (s *session) do(call string, h gnet.Engine) {
